@@ -56,7 +56,7 @@ def distances(r):
 
 def plan(tier, seed):
     rs = resolutions(tier, seed)
-    shards = [(r, fp) for r in rs for fp in range(4)] + [("env", r) for r in (1, 7, 192, 480)] + [("order", r, fp) for r in (2, 7, 192) for fp in range(4)] + [("headers", k) for k in range(8)]
+    shards = [(r, fp) for r in rs for fp in range(4)] + [("env", r) for r in (1, 7, 192, 480)] + [("order", r, fp) for r in (2, 7, 192) for fp in range(4)] + [("headers", k) for k in range(8)] + [("cross", k) for k in range(4)]
     return dict(shards=shards, bounds=dict(resolutions=(rs if len(rs) < 50 else "1..400 + %r" % [r for r in rs if r > 400])), budget_s=1500 if tier == "thorough" else 300)
 
 
@@ -203,7 +203,46 @@ def _header_shard(ctx, k):
                     e1.report(ctx, "decision-packed", text, HEADER_PROBE, [[[ins, dif, exp]]], got if len(str(got)) < 300 else str(got)[:300], "section [%s], resolution %d distance %d flags %r/%r: states differ from the rule" % (header, r, d, fa, fb))
 
 
+def _cross_shard(ctx, k):
+    """State carried from one track / chart to the next IN ONE PROCESS (a cached threshold, a remembered previous
+    note): a track at resolution r1, then a track at resolution r2 whose FIRST note is plain / tap / forced-rejected,
+    with the pair table at the distances around BOTH thresholds - also as two tracks of one chart (same
+    resolution, other first note)."""
+    RS = (192, 480, 10, 7)
+    r1 = RS[k]
+    for r2 in RS:
+        if r2 == r1:
+            continue
+        t1, t2 = (r1 + 1) // 3, (r2 + 1) // 3
+        warm = mk(res=r1, tracks={"ExpertSingle": note_lines(0, (0,)) + note_lines(t1, (1,)) + note_lines(2 * t1 + 1, (2,))})
+        for first_flags in ((), (6,)):
+            for d in sorted({x for x in (t1, t1 + 1, t2, t2 + 1, (t1 + t2) // 2) if x >= 1}):
+                for fb in ((), (5,)):
+                    ctx.node()
+                    gap = 10 * r2 + 50
+                    body = note_lines(0, (0,), first_flags)
+                    exp = ["TAP" if 6 in first_flags else "STRUM"]
+                    t = gap
+                    for a in COMBOS:
+                        for b in COMBOS[::3]:
+                            body += note_lines(t, a) + note_lines(t + d, b, fb)
+                            exp += [far_rule(()), rule(a, (), b, fb, d, t2)]
+                            t += d + gap
+                    text = mk(res=r2, tracks={"ExpertSingle": body})
+                    e1.run_probe(probe, warm)  # the earlier track, same process
+                    got = e1.run_probe(probe, text)
+                    ctx.executions += 2
+                    ctx.evaluations += len(exp)
+                    ctx.nontrivial += len(exp)
+                    ctx.hist["cross_resolution_tracks"] += 1
+                    if got != exp:
+                        kk = next((i for i in range(min(len(exp), len(got))) if got[i] != exp[i]), 0) if isinstance(got, list) and got[:1] != ["raises"] else 0
+                        e1.report(ctx, "decision-after-other-track", text, PROBE_SRC, [exp], got if len(str(got)) < 300 else str(got)[:300], "resolution %d (threshold %d) parsed right after a track at resolution %d (threshold %d); first note flags %r, distance %d, flags %r: first difference at note %d - note that the replay needs the earlier parse" % (r2, t2, r1, t1, first_flags, d, fb, kk), extra_case=dict(warm=warm))
+
+
 def run_shard(shard, ctx):
+    if shard[0] == "cross":
+        return _cross_shard(ctx, shard[1])
     if shard[0] == "headers":
         return _header_shard(ctx, shard[1])
     if shard[0] == "env":
